@@ -142,36 +142,38 @@ def byPool (w : CmpAttr) : List Toks :=
 /-! ## Exhaustive single-field comparison matrix -/
 
 /-- 7 options for ord / partial_ord -/
-def ordOpt (w : CmpAttr) : Nat → Option CmpArgs
+def ordOptW (keyE byE : CmpAttr → Toks) (w : CmpAttr) : Nat → Option CmpArgs
   | 0 => none
   | 1 => some { ignore := true }
   | 2 => some { reverse := true }
-  | 3 => some { key := some (keyExpr w) }
-  | 4 => some { by_ := some (byExpr w) }
-  | 5 => some { reverse := true, key := some (keyExpr w) }
-  | _ => some { reverse := true, by_ := some (byExpr w) }
+  | 3 => some { key := some (keyE w) }
+  | 4 => some { by_ := some (byE w) }
+  | 5 => some { reverse := true, key := some (keyE w) }
+  | _ => some { reverse := true, by_ := some (byE w) }
 /-- 4 options for eq / partial_eq / hash -/
-def eqOpt (w : CmpAttr) : Nat → Option CmpArgs
+def eqOptW (keyE byE : CmpAttr → Toks) (w : CmpAttr) : Nat → Option CmpArgs
   | 0 => none
   | 1 => some { ignore := true }
-  | 2 => some { key := some (keyExpr w) }
-  | _ => some { by_ := some (byExpr w) }
+  | 2 => some { key := some (keyE w) }
+  | _ => some { by_ := some (byE w) }
 
 def optName : Nat → String
   | 0 => "-" | 1 => "ignore" | 2 => "reverse" | 3 => "key" | 4 => "by" | 5 => "reverse+key" | _ => "reverse+by"
 def eqOptName : Nat → String
   | 0 => "-" | 1 => "ignore" | 2 => "key" | _ => "by"
 
-def cmpAttrsOf (combo : Nat) : List Attr × String :=
+def cmpAttrsOfW (keyE byE : CmpAttr → Toks) (combo : Nat) : List Attr × String :=
   let o := combo % 7
   let po := (combo / 7) % 7
   let e := (combo / 49) % 4
   let pe := (combo / 196) % 4
   let h := (combo / 784) % 4
   let mk (w : CmpAttr) (a : Option CmpArgs) : List Attr := match a with | some a => [.cmp w (.list a)] | none => []
-  (mk .ord (ordOpt .ord o) ++ mk .partialOrd (ordOpt .partialOrd po) ++ mk .eq (eqOpt .eq e) ++
-     mk .partialEq (eqOpt .partialEq pe) ++ mk .hash (eqOpt .hash h),
+  (mk .ord (ordOptW keyE byE .ord o) ++ mk .partialOrd (ordOptW keyE byE .partialOrd po) ++ mk .eq (eqOptW keyE byE .eq e) ++
+     mk .partialEq (eqOptW keyE byE .partialEq pe) ++ mk .hash (eqOptW keyE byE .hash h),
    s!"ord={optName o},po={optName po},eq={eqOptName e},pe={eqOptName pe},hash={eqOptName h}")
+
+def cmpAttrsOf (combo : Nat) : List Attr × String := cmpAttrsOfW keyExpr byExpr combo
 
 def traitSubset (mask : Nat) : List String :=
   (cmpTraits.zipIdx).filterMap fun (t, i) => if (mask >>> i) % 2 == 1 then some t else none
